@@ -362,6 +362,7 @@ type exec struct {
 	prevSt *State // state before the statement whose proof steps are being run (prev())
 	splitOK   int                    // >0 while a simple statement is executed under execSplittable
 	forcedRet map[*ast.CallExpr]int // inlined call -> index of the return path to follow
+	forcedIdx map[*Term]int64       // symbolic index term -> constant it is assumed to equal in this re-execution
 	nameN  map[string]int
 	taint  bool
 	ptrTables map[*Obj]*types.Array // backing stores of []*[N]scalar tables
@@ -721,13 +722,13 @@ func (ex *exec) freshSlice(st *State, elem types.Type, name string, depth int) *
 			ex.ptrTables = map[*Obj]*types.Array{}
 		}
 		ex.ptrTables[o] = at
-	} else if isl, ok := elem.Underlying().(*types.Slice); ok && ptrToScalarArray(isl.Elem()) != nil && depth < 2 {
+	} else if isl, ok := elem.Underlying().(*types.Slice); ok && lazyRowsElem(isl.Elem()) && depth < 3 {
 		// slice of read-only pointer tables ([][]*[N]uintX, the transposed precomputation tables): the rows are
 		// created on first use, one fresh pointer table per constant outer index; never written
 		lz := &LazyRows{Elem: isl.Elem(), Name: name, Rows: map[int64]*Slice{}}
 		for k := int64(0); k < 4; k++ {
 			// rows 0..3 are created now, so that their basic facts are part of the entry state
-			r := ex.freshSlice(st, lz.Elem, fmt.Sprintf("%s[%d]", name, k), 2)
+			r := ex.freshSlice(st, lz.Elem, fmt.Sprintf("%s[%d]", name, k), depth+1)
 			st.assume(Not(r.Nil))
 			lz.Rows[k] = r
 		}
@@ -797,6 +798,15 @@ func (ex *exec) navigate(v Value, path []Sel, pos token.Pos) Value {
 			v = Select(a, s.Idx)
 		case *Array:
 			if !s.Idx.IsConst() {
+				// a small array of pointers/structs indexed by a symbolic value: the enclosing simple statement is
+				// executed once per index value k under the assumption idx == k (execSplittable)
+				if k, ok := ex.forcedIdx[s.Idx]; ok && k < int64(len(a.E)) {
+					v = a.E[k]
+					continue
+				}
+				if ex.splitOK > 0 && len(a.E) <= 16 {
+					panic(splitRequest{idx: s.Idx, n: len(a.E)})
+				}
 				ex.fail(pos, "symbolic index into array of non-scalars")
 			}
 			i := int(s.Idx.Val.Int64())
@@ -893,6 +903,17 @@ func (ex *exec) load(st *State, p *Ptr, pos token.Pos) Value {
 		return &Ptr{Obj: tmp}
 	}
 	return ex.navigate(v, p.Path, pos)
+}
+
+// lazyRowsElem: t is *[N]E (a pointer table row) or a slice of such element types (nested tables)
+func lazyRowsElem(t types.Type) bool {
+	if ptrToScalarArray(t) != nil {
+		return true
+	}
+	if sl, ok := t.Underlying().(*types.Slice); ok {
+		return lazyRowsElem(sl.Elem())
+	}
+	return false
 }
 
 // ptrToScalarArray: t == *[N]E for a small N
@@ -1009,7 +1030,8 @@ func (ex *exec) execStmt(st *State, s ast.Stmt) []*Outcome {
 
 // splitRequest: an inlined call inside a simple statement ended in n return paths that cannot be merged.
 type splitRequest struct {
-	call *ast.CallExpr
+	call *ast.CallExpr // inlined call with n unmergeable return paths, or
+	idx  *Term         // symbolic index into an array of n non-scalar elements
 	n    int
 }
 
@@ -1071,6 +1093,42 @@ func (ex *exec) execSplittable(st *State, s ast.Stmt) ([]*Outcome, bool) {
 		ex.fail(s.Pos(), "too many nested unmergeable inlined calls in one statement")
 	}
 	var all []*Outcome
+	if req.idx != nil {
+		if ex.forcedIdx == nil {
+			ex.forcedIdx = map[*Term]int64{}
+		}
+		for k := 0; k < req.n; k++ {
+			ex.forcedIdx[req.idx] = int64(k)
+			c := backup.clone()
+			// an if / else-if cascade of branch decisions (idx != 0, ..., idx != k-1, idx == k), so that the
+			// resulting states can be merged again like the arms of a conditional
+			for j := 0; j < k; j++ {
+				c.assumeBranch(Not(Eq(req.idx, ex.idxConst(int64(j)))))
+			}
+			if k < req.n-1 {
+				c.assumeBranch(Eq(req.idx, ex.idxConst(int64(k))))
+			} else {
+				c.assume(Eq(req.idx, ex.idxConst(int64(k)))) // the index obligation has shown idx < n
+			}
+			sub, _ := ex.execSplittableAgain(c, s)
+			all = append(all, sub...)
+		}
+		delete(ex.forcedIdx, req.idx)
+		// merge the normal outcomes back into as few states as possible
+		var normals []*State
+		var rest []*Outcome
+		for _, o := range all {
+			if o.kind == ONormal {
+				normals = append(normals, o.st)
+			} else {
+				rest = append(rest, o)
+			}
+		}
+		for _, m := range ex.mergeStates(normals) {
+			rest = append(rest, &Outcome{st: m, kind: ONormal})
+		}
+		return rest, true
+	}
 	for k := 0; k < req.n; k++ {
 		ex.forcedRet[req.call] = k
 		c := backup.clone()
